@@ -3,7 +3,7 @@ SPECIFICATION Spec
 CONSTANTS
   NObj = 2
   Vals = {1, 2}
-  MaxVer = 4
+  MaxVer = 3
   MaxKills = 2
   MaxRuns = 4
   Variant = "state_first"
